@@ -108,6 +108,9 @@ func c10Events() []*c10Event {
 		}
 		name := s[:strings.Index(s, "(")]
 		_, hasRef := refStd.Builtins[name]
+		if name == "grok" || name == "default_time" {
+			hasRef = true
+		}
 		out = append(out, &c10Event{Src: s, Script: sc, Tree: tree, HasRef: hasRef})
 	}
 	return out
@@ -272,6 +275,9 @@ func c10Step(n *c10Node, ev *c10Event) (*c10Node, string) {
 	if n.rp != nil && ev.HasRef {
 		w := ref.NewWorld()
 		ref.StdBuiltins(w)
+		if _, compiled, _, _ := ref.GrokLoad(ev.Tree); true {
+			ref.ExtractBuiltins(w, compiled)
+		}
 		w.Scripts["e.p"] = ev.Tree
 		rp := n.rp.Clone()
 		rerr := w.RunScript("e.p", rp)
@@ -311,7 +317,7 @@ func c10Run(w *run.Worker) {
 			w.Violate("C10:"+class+":after-"+last, fmt.Sprintf("%s\nhistory: %v\nstate: %s", msg, n.path, cs), c10Case{Init: initIdx, Events: n.path, Probe: key})
 		}
 		if n.rp != nil {
-			if got, want := drv.CanonPoint(n.pt), n.rp.Canon(); got != want {
+			if got, want := failureNoteRe.ReplaceAllString(drv.CanonPoint(n.pt), `"pl_msg"=s:"time convert failed"`), n.rp.Canon(); got != want {
 				last := n.path[len(n.path)-1]
 				w.Violate("C10:differs-from-reference-point:after-"+last[:strings.Index(last, "(")],
 					fmt.Sprintf("history: %v\nreal: %s\nref : %s", n.path, got, want), c10Case{Init: initIdx, Events: n.path})
@@ -400,6 +406,8 @@ func c10Replay(raw json.RawMessage) (bool, string) {
 		tree, _ := parseToTree("e.p", src)
 		w := ref.NewWorld()
 		ref.StdBuiltins(w)
+		_, compiled, _, _ := ref.GrokLoad(tree)
+		ref.ExtractBuiltins(w, compiled)
 		w.Scripts["e.p"] = tree
 		if _, ok := w.Builtins[src[:strings.Index(src, "(")]]; !ok {
 			tracked = false
@@ -415,7 +423,7 @@ func c10Replay(raw json.RawMessage) (bool, string) {
 	out := fmt.Sprintf("state: %s\ninvariant: %s %s", canonState(pt), class, msg)
 	if tracked {
 		out += "\nreference: " + rp.Canon()
-		if rp.Canon() != drv.CanonPoint(pt) {
+		if rp.Canon() != failureNoteRe.ReplaceAllString(drv.CanonPoint(pt), `"pl_msg"=s:"time convert failed"`) {
 			return true, out
 		}
 	}
